@@ -4,6 +4,7 @@ import ComposeVerif.Model.Encode
 import ComposeVerif.Model.Decode
 import ComposeVerif.Gen.Types
 import ComposeVerif.Model.RoundTripScope
+import ComposeVerif.Model.RenderHistory
 /-! line-protocol ops for C09: `c09.marshal` / `c09.decode` (custom marshallers and decoders of package types) -/
 open Lean
 namespace CV.Ops.C09
@@ -110,6 +111,29 @@ def rtOp : Handler := fun args =>
     | j => j
   | .error e => Json.mkObj [("bad", e)]
 
-def handlers : List (String × Handler) := [("c09.marshal", marshalOp), ("c09.decode", decodeOp), ("c09.struct", structOp), ("c09.load", loadOp), ("c09.loadext", loadExtOp), ("c09.rt", rtOp)]
+/-- (round 6) a history of renderings of one project on the heap model (`History.run` over `Secrets.applyHeap`): per call
+    the secrets whose `content` is in the rendering, and after the history the secrets flagged in the CALLER's map -/
+def historyOp : Handler := fun args =>
+  let secrets : List (String × CV.Secrets.FileObj) := match getObj args "secrets" with
+    | .arr a => a.toList.map fun j =>
+        (getStr j "key", { name := getStr j "name", file := getStr j "file", environment := getStr j "environment", content := getStr j "content" })
+    | _ => []
+  let calls : List CV.History.Call := (getStrList args "steps").map fun st =>
+    { r := if st.startsWith "json" then .json else .yaml, content := st.endsWith "+secrets" }
+  let h0 : CV.Secrets.Heap := { maps := [(0, secrets)], next := 1 }
+  let out := CV.History.run [] calls h0 0
+  let visible (v : Val) : List String :=
+    match v with
+    | .map top =>
+      match Val.lookup "secrets" top with
+      | some (.map ss) => ss.filterMap fun kv => match kv.2 with
+        | .map kvs => if (Val.lookup "content" kvs).isSome then some kv.1 else none
+        | _ => none
+      | _ => []
+    | _ => []
+  Json.mkObj [("visible", Json.arr (out.2.map fun v => Json.arr ((visible v).map Json.str).toArray).toArray),
+    ("flags", Json.arr (((out.1.get 0).filter fun kv => kv.2.marshallContent).map fun kv => Json.str kv.1).toArray)]
+
+def handlers : List (String × Handler) := [("c09.history", historyOp), ("c09.marshal", marshalOp), ("c09.decode", decodeOp), ("c09.struct", structOp), ("c09.load", loadOp), ("c09.loadext", loadExtOp), ("c09.rt", rtOp)]
 
 end CV.Ops.C09
